@@ -91,6 +91,32 @@ func c15Deep(n int, f func() c15Site) c15Site {
 	return c15Deep(n-1, f)
 }
 
+// hereSlog: what the slog handler must report for a call made on the same line - the CALLER is the call site slog
+// recorded (skip 0), the STACK starts `skip` frames further out (zapslog.WithCallerSkip).
+//
+//go:noinline
+func hereSlog(skip int) c15Site {
+	pcs := make([]uintptr, 4096)
+	n := runtime.Callers(2, pcs)
+	frames := runtime.CallersFrames(pcs[:n])
+	var s c15Site
+	var all []string
+	for i := 0; ; i++ {
+		f, more := frames.Next()
+		if i == 0 {
+			s.file, s.line, s.fn = f.File, f.Line, f.Function
+		}
+		if i >= skip {
+			all = append(all, fmt.Sprintf("%s\n\t%s:%d", f.Function, f.File, f.Line))
+		}
+		if !more {
+			break
+		}
+	}
+	s.stack = all[:len(all)-1]
+	return s
+}
+
 type c15Front struct {
 	name string
 	lvl  zapcore.Level
@@ -273,14 +299,17 @@ func propC15(t *rapid.T) {
 	slogStackAt := slog.LevelError
 	if useSlog {
 		slogStackAt = rapid.SampledFrom([]slog.Level{slog.LevelDebug, slog.LevelInfo, slog.LevelWarn, slog.LevelError, slog.Level(12)}).Draw(t, "slogStackAt")
-		h := slog.New(zapslog.NewHandler(lg.Core(), zapslog.WithCaller(true), zapslog.AddStacktraceAt(slogStackAt)))
-		skip = 0 // the handler uses the call site slog recorded
+		// the handler reports the call site slog recorded; WithCallerSkip moves the START OF THE STACK TRACE outwards
+		// (a logging helper wrapped around slog), for the base handler and for every handler derived from it
+		k := skip
+		h := slog.New(zapslog.NewHandler(lg.Core(), zapslog.WithCaller(true), zapslog.AddStacktraceAt(slogStackAt), zapslog.WithCallerSkip(k)))
 		fronts = []c15Front{
-			{"slog.Info", zapcore.InfoLevel, func() c15Site { x := here(0); h.Info("m"); return x }},
-			{"slog.Error", zapcore.ErrorLevel, func() c15Site { x := here(0); h.Error("m", "a", 1); return x }},
-			{"slog.Log(Warn)", zapcore.WarnLevel, func() c15Site { x := here(0); h.Log(context.Background(), slog.LevelWarn, "m"); return x }},
-			{"slog.DebugContext", zapcore.DebugLevel, func() c15Site { x := here(0); h.DebugContext(context.Background(), "m"); return x }},
-			{"slog.With.Info", zapcore.InfoLevel, func() c15Site { x := here(0); h.With("a", 1).WithGroup("g").Info("m", "b", 2); return x }},
+			{"slog.Info", zapcore.InfoLevel, func() c15Site { x := hereSlog(k); h.Info("m"); return x }},
+			{"slog.Error", zapcore.ErrorLevel, func() c15Site { x := hereSlog(k); h.Error("m", "a", 1); return x }},
+			{"slog.Log(Warn)", zapcore.WarnLevel, func() c15Site { x := hereSlog(k); h.Log(context.Background(), slog.LevelWarn, "m"); return x }},
+			{"slog.DebugContext", zapcore.DebugLevel, func() c15Site { x := hereSlog(k); h.DebugContext(context.Background(), "m"); return x }},
+			{"slog.With.Info", zapcore.InfoLevel, func() c15Site { x := hereSlog(k); h.With("a", 1).WithGroup("g").Info("m", "b", 2); return x }},
+			{"slog.WithGroup.Error", zapcore.ErrorLevel, func() c15Site { x := hereSlog(k); h.WithGroup("g").With("a", 1).Error("m"); return x }},
 			// the wrapping pattern slog documents: a helper builds the Record with ITS caller's PC and hands it to the handler
 			{"slog.Wrapper(Error)", zapcore.ErrorLevel, func() c15Site { x := here(0); c15SlogHelper(h.Handler(), slog.LevelError); return x }},
 			{"slog.Wrapper(Info)", zapcore.InfoLevel, func() c15Site { x := here(0); c15SlogHelper(h.Handler(), slog.LevelInfo); return x }},
